@@ -122,7 +122,13 @@ def run_coqchk():
                        stdout=subprocess.PIPE, stderr=subprocess.STDOUT, text=True)
     out = p.stdout
     axioms = re.findall(r"(?m)^\s{4}(\S+)\s*$", out.split("* Axioms:")[1].split("* Constants")[0]) if "* Axioms:" in out else []
-    foreign = [a for a in axioms if not re.match(r"Coq\.(Numbers\.Cyclic\.Int63\.(PrimInt63|Uint63)|Floats\.PrimFloat)\.", a)]
+    # everything below is declared by the standard library (never by this development): the int63/float primitives and
+    # their specification axioms, and - only through Props/C04F.v's Flocq-based theorem - the classical real numbers
+    stdlib = (r"Coq\.(Numbers\.Cyclic\.Int63\.(PrimInt63|Uint63)|Floats\.(PrimFloat|FloatAxioms))\."
+              r"|Coq\.Reals\.ClassicalDedekindReals\.(sig_not_dec|sig_forall_dec)$"
+              r"|Coq\.Logic\.FunctionalExtensionality\.functional_extensionality_dep$"
+              r"|Coq\.Logic\.Classical_Prop\.classic$")
+    foreign = [a for a in axioms if not re.match(stdlib, a)]
     return dict(rc=p.returncode, wall_s=round(time.time() - t0, 1), modules=mods, axioms_total=len(axioms),
                 axioms_outside_int63_float_primitives=foreign,
                 type_in_type="type-in-type: <none>" in out, unsafe_fix="unsafe (co)fixpoints: <none>" in out,
